@@ -590,9 +590,9 @@ def optimize_const(operations: list[tuple[Variable, Operator, Number]]) -> list[
                 raise Exception("Unreachable")
             indices_to_delete.append(i)
         if first_const_index != -1:
-            if temp_operations[first_const_index][1].content in "*%" and float(temp_operations[first_const_index][2].content) == 1:
+            if temp_operations[first_const_index][1].content in ("*", "/") and float(temp_operations[first_const_index][2].content) == 1:
                 indices_to_delete.insert(0, first_const_index)
-            elif temp_operations[first_const_index][1].content in "+-" and float(temp_operations[first_const_index][2].content) == 0:
+            elif temp_operations[first_const_index][1].content in ("+", "-") and float(temp_operations[first_const_index][2].content) == 0:
                 indices_to_delete.insert(0, first_const_index)
 
         for i in reversed(indices_to_delete):
